@@ -1599,8 +1599,16 @@ class Interp:
         return out
 
     def ex_GeneratorExp(self, n, frame):
+        first = self.ev(n.generators[0].iter, frame)
+        if isinstance(first, sym.SSeq):
+            # the one shape modelled over a list of symbolic length (same as for a list comprehension); eager, so an
+            # invalid element raises here rather than at consumption -- both happen inside the same expression statement
+            r = self._abstract_map(n, frame, first)
+            if r is None:
+                raise Unsupported("generator over a list of symbolic length")
+            return r[1]
         out = []
-        self._comp(n, frame, lambda f: out.append(self.ev(n.elt, f)))
+        self._comp(n, frame, lambda f: out.append(self.ev(n.elt, f)), first)
         return out  # eager: a list stands for the generator
 
     def ex_SetComp(self, n, frame):
